@@ -140,6 +140,8 @@ def item_filter(facts, it, loop, field_path):
                 tgt = loc_target(it, w.loc)
                 if tgt and tgt[0] == 1 and tuple(tgt[1]) == tuple(field_path) and tgt[2] == 'w' and versionless(w.val) == coll:
                     stored = True
+            if not stored and not a0.loc[1] and ('L%d' % a0.loc[0][1]) in locals_into_field(it.facts, it.body, it, field_path):
+                stored = True
             if not stored and not a0.loc[1]:
                 # buffered in a local collection that is poured into the (previously emptied) field after the loop
                 lname = 'L%d' % a0.loc[0][1]
@@ -341,8 +343,66 @@ def coll_local(raw):
         if t[0] == 'at':
             t = t[2]
             continue
+        if t[0] == 'post' and t[1][0] == 'call' and isinstance(t[2], int) and t[2] < len(t[1][2]):
+            t = t[1][2][t[2]]       # the collection after a call that mutated it in place (`v.append(..)`, `v.sort()`)
+            continue
         return None
     return None
+
+
+def locals_into_field(facts, body, it, field_path):
+    """Names of the local collections whose whole content ends up in self.<field_path> on every path: assigned to the field, or
+    poured (`extend` / `append`) into the field or into another such local."""
+    rc = Reach(facts, body, Evaluator(facts))
+    sinks = set()
+    for w in it.writes.values():
+        tgt = loc_target(it, w.loc)
+        if tgt and tgt[0] == 1 and tuple(tgt[1]) == tuple(field_path) and tgt[2] == 'w':
+            nm = coll_local(w.val)
+            if nm and rc.must_pass([w.bb]):
+                sinks.add(nm)
+    for _ in range(4):
+        grew = False
+        for bb, c in it.calls.items():
+            if call_name(c.term) not in ('extend', 'append') or len(c.args) != 2:
+                continue
+            a0 = c.args[0]
+            into = param_path(versionless(a0.val)) == (1, tuple(field_path)) or \
+                (a0.loc is not None and a0.loc[0][0] == 'L' and not a0.loc[1] and ('L%d' % a0.loc[0][1]) in sinks)
+            nm = coll_local(c.args[1].val)
+            if into and nm and nm not in sinks and rc.must_pass([bb]):
+                sinks.add(nm)
+                grew = True
+        if not grew:
+            break
+    return sinks
+
+
+def local_side(it, lname, at_head, field):
+    """The one parameter whose <field> items a local collection holds when the loop at `at_head` walks it: every insertion that
+    can happen before that loop puts in (something made of) an item of a loop over <param>.<field>.  None when mixed/unknown."""
+    root = ('L', int(lname[1:]))
+    sides = set()
+    lps = loops_of(it)
+    for bb, c in it.calls.items():
+        if not c.args or c.args[0].loc is None or c.args[0].loc[0] != root or c.args[0].loc[1]:
+            continue
+        n = call_name(c.term)
+        if n not in KEEP_CALLS and n not in ('extend', 'append', 'extend_from_slice'):
+            continue
+        if at_head not in _fwd(it, [bb], set()):
+            continue      # happens after the walk
+        lp = None
+        for l_ in lps:
+            if bb in l_.blocks and (lp is None or len(l_.blocks) < len(lp.blocks)):
+                lp = l_
+        if n in KEEP_CALLS and lp is not None and any(item_derived(a.val, lp) for a in c.args[1:]):
+            pp = param_path(lp.source()[0])
+            if pp and tuple(pp[1][-1:]) == (field,):
+                sides.add(pp[0])
+                continue
+        return None
+    return next(iter(sides)) if len(sides) == 1 else None
 
 
 class Fill:
